@@ -495,12 +495,80 @@ def _r31c(chk, repo) -> None:
                 "a result component is neither the unchanged parameter nor computed from the text parameter", detail="line and column from the same text",
             )
 
+    # ---- (4) the column after a newline is measured from the LAST newline of the text -----------------
+    # Whatever in the cone of the column result locates a newline in the text must be a last-oriented
+    # operation.  First-oriented ones (index/find/partition, element 0 or 1 of a split) give the right
+    # answer for texts with at most one newline -- all that a unit test usually tries -- and a wrong
+    # column for a block comment or statement that spans three lines.
+    LAST = {"rindex", "rfind", "rpartition", "rsplit"}
+    FIRST = {"index", "find", "partition"}
+    n_loc = 0
+    for r in rets:
+        for e, path, kind in leaves(icfg, r.value, r):
+            if not (isinstance(e, ast.Tuple) and len(e.elts) == 2):
+                continue
+            st = icfg.stmt_of(e) or r
+            # expressions the column derives from (through locals)
+            todo, seen_e = [(e.elts[1], st)], []
+            while todo:
+                x, at = todo.pop()
+                if any(x is y for y in seen_e):
+                    continue
+                seen_e.append(x)
+                for sub in ast.walk(x):
+                    if isinstance(sub, ast.Name):
+                        for o in origins(icfg, sub, at):
+                            if o.kind == "expr" and o.expr is not None and not any(o.expr is y for y in seen_e):
+                                todo.append((o.expr, o.stmt))
+            for x in seen_e:
+                for sub in ast.walk(x):
+                    if isinstance(sub, ast.Call) and isinstance(sub.func, ast.Attribute) and sub.func.attr in LAST | FIRST and sub.args and isinstance(sub.args[0], ast.Constant) and sub.args[0].value == "\n":
+                        n_loc += 1
+                        chk.require(
+                            sub.func.attr in LAST, "R31c", sub,
+                            f"the column after a newline is computed with `{short(sub, 40)}`, which finds the FIRST newline of the text: for a text with two or more newlines "
+                            "the column is measured from the wrong line start",
+                            detail="column measured from the last newline",
+                        )
+                    idx_c = None
+                    if isinstance(sub, ast.Subscript):
+                        sl = sub.slice
+                        if isinstance(sl, ast.Constant) and isinstance(sl.value, int):
+                            idx_c = sl.value
+                        elif isinstance(sl, ast.UnaryOp) and isinstance(sl.op, ast.USub) and isinstance(sl.operand, ast.Constant) and isinstance(sl.operand.value, int):
+                            idx_c = -sl.operand.value
+                    if idx_c is not None and isinstance(sub.value, (ast.Call, ast.Name)):
+                        v = sub.value
+                        if isinstance(v, ast.Name):
+                            os2 = origins(icfg, v, st)
+                            v = os2[0].expr if len(os2) == 1 and os2[0].kind == "expr" else None
+                        if isinstance(v, ast.Call) and isinstance(v.func, ast.Attribute) and v.func.attr in ("split", "rsplit", "splitlines") and (not v.args or (isinstance(v.args[0], ast.Constant) and v.args[0].value == "\n")):
+                            n_loc += 1
+                            chk.require(
+                                idx_c == -1, "R31c", sub,
+                                f"the column after a newline uses element {idx_c} of the split text; only the last element ([-1]) is the text of the final line",
+                                detail="column measured from the last newline",
+                            )
+    chk.count("R31c.newline_locators_in_column", n_loc)
+
 
 from ..selftest import Variant  # noqa: E402
 
 LINTER = "src/sqlfluff/core/linter/linter.py"
 
 VARIANTS = [
+    Variant(
+        "infer-next-position-measures-from-first-newline", MARKERS,
+        "        split = raw.split(\"\\n\")\n        return (\n            line_no + len(split) - 1,\n            line_pos + len(raw) if len(split) == 1 else len(split[-1]) + 1,\n        )\n",
+        "        newlines = raw.count(\"\\n\")\n        if not newlines:\n            return line_no, line_pos + len(raw)\n        return line_no + newlines, len(raw) - raw.index(\"\\n\")\n",
+        "R31c", "infer_next_position", "seeded C31-2: end of a three-line statement gets the wrong column",
+    ),
+    Variant(
+        "quiet-infer-next-position-rindex", MARKERS,
+        "        split = raw.split(\"\\n\")\n        return (\n            line_no + len(split) - 1,\n            line_pos + len(raw) if len(split) == 1 else len(split[-1]) + 1,\n        )\n",
+        "        newlines = raw.count(\"\\n\")\n        if not newlines:\n            return line_no, line_pos + len(raw)\n        return line_no + newlines, len(raw) - raw.rindex(\"\\n\")\n",
+        "QUIET", None, "the same arithmetic with rindex (correct)",
+    ),
     # ---- behaviour-preserving edits ---------------------------------------------------------------
     Variant(
         "quiet-converter-conditional-expression", TBASE,
